@@ -5,7 +5,7 @@
 set -u
 cd /verif/seeded
 git -C /repo status --short | grep -v '^??' | grep -q . && { echo "/repo not clean"; exit 2; }
-declare -A ALSO=( ["C09-wt-c09-2"]="C07" ["C15-wt-c15-2"]="C16" ["C10-wt-c10-2"]="C09" )
+declare -A ALSO=( ["C09-wt-c09-2"]="C07" ["C15-wt-c15-2"]="C16" ["C10-wt-c10-2"]="C09" ["C02-wt2-c02-2"]="C01" ["C07-wt2-c07-1"]="C13" ["C08-wt2-c08-1"]="C07" ["C13-wt2-c13-2"]="C16" ["C09-wt2-c09-2"]="C07" )
 OUT=/verif/seeded/SWEEP.md
 echo "# Sweep of all seeded changes against the final checks ($(date -u +%FT%TZ), /repo $(git -C /repo log --format=%h -1), /verif $(git -C /verif log --format=%h -1))" > $OUT
 echo >> $OUT; echo "| seed | patch | check | exit (1 = VIOLATION) | first signatures |" >> $OUT; echo "|---|---|---|---|---|" >> $OUT
@@ -19,7 +19,7 @@ for d in */; do
   git -C /repo apply "/verif/seeded/$patch"
   for chk in $prop ${ALSO[$d]:-}; do
     (cd /verif && timeout 1800 bin/vcheck run $chk --tier quick > /dev/shm/sweep.out 2>&1); rc=$?
-    sigs=$(grep -m2 "signature:" /dev/shm/sweep.out | sed 's/ *signature: //' | tr '\n' ';' | tr '|' '/')
+    sigs=$(grep -v "^KNOWN" /dev/shm/sweep.out | grep -m2 "signature:" | sed 's/ *signature: //' | tr '\n' ';' | tr '|' '/')
     echo "| $d | $(basename $patch) | $chk | $rc | $sigs |" >> $OUT
   done
   git -C /repo checkout -- .
